@@ -80,6 +80,9 @@ pub enum BodyForm {
     /// a payload consisting of empty chunks only
     EmptyChunks(u8),
     Data { spec: BytesSpec, sizes: Vec<u32> },
+    /// a body whose transfer fails after `after` good chunks (the HTTP layer reports a payload
+    /// error of kind `kind` to the handler; over a socket: garbage where a chunk size belongs)
+    Broken { spec: BytesSpec, sizes: Vec<u32>, after: u8, kind: u8 },
 }
 
 #[derive(Clone, Debug, Serialize, Deserialize, PartialEq, Eq, Hash)]
@@ -95,6 +98,9 @@ pub struct RawReq {
     /// send a Content-Length header with the body length (a real unchunked upload does)
     #[serde(default)]
     pub announce_len: bool,
+    /// make the request as HTTP/1.0 (what many reverse proxies speak to their upstreams)
+    #[serde(default)]
+    pub http10: bool,
 }
 
 #[derive(Clone, Copy, Debug, PartialEq, Eq, Hash)]
@@ -250,6 +256,7 @@ pub fn build(r: &RawReq, client: Uuid, other: Uuid, id: Uuid) -> Built {
     if let Some(ct) = ct {
         headers.push(("Content-Type".into(), ct));
     }
+    let mut broken = false;
     let (body, chunks): (Bytes, Vec<Bytes>) = match &r.body {
         BodyForm::None => (Bytes::new(), vec![]),
         BodyForm::EmptyChunks(n) => (Bytes::new(), (0..(*n % 3) + 1).map(|_| Bytes::new()).collect()),
@@ -258,9 +265,24 @@ pub fn build(r: &RawReq, client: Uuid, other: Uuid, id: Uuid) -> Built {
             let c = cut(&b, sizes);
             (b, c)
         }
+        BodyForm::Broken { spec, sizes, after, kind } => {
+            let b = Bytes::from(spec.expand());
+            let mut c = cut(&b, sizes);
+            c.retain(|x| !x.is_empty());
+            if c.is_empty() {
+                c.push(Bytes::from_static(b"x"));
+            }
+            let after = (*after as usize) % (c.len() + 1);
+            headers.push((crate::driver::BREAK_PSEUDO_HEADER.into(), format!("{after}:{kind}").into_bytes()));
+            broken = true;
+            (b, c)
+        }
     };
     if r.announce_len && !chunks.is_empty() {
         headers.push(("Content-Length".into(), body.len().to_string().into_bytes()));
+    }
+    if r.http10 {
+        headers.push((crate::driver::VERSION_PSEUDO_HEADER.into(), b"1.0".to_vec()));
     }
     if endpoint.is_some() {
         let c = id_form_class(r.cid);
@@ -285,7 +307,11 @@ pub fn build(r: &RawReq, client: Uuid, other: Uuid, id: Uuid) -> Built {
                 }
             };
             expect = worst(expect, c);
-            if body.is_empty() {
+            if broken {
+                // a request the HTTP layer itself reports as malformed half way through
+                reasons.push("broken-transfer");
+                expect = Expect::Refuse;
+            } else if body.is_empty() {
                 reasons.push("empty-body");
                 expect = Expect::Refuse;
             } else if body.len() > LIMIT {
@@ -352,6 +378,7 @@ pub fn sizes() -> impl Strategy<Value = Vec<u32>> {
 fn bodyform() -> impl Strategy<Value = BodyForm> {
     prop_oneof![
         12 => (case::bytes_spec(1500), sizes()).prop_map(|(spec, sizes)| BodyForm::Data { spec, sizes }),
+        2 => (case::bytes_spec(1500), sizes(), 0u8..5, 0u8..5).prop_map(|(spec, sizes, after, kind)| BodyForm::Broken { spec, sizes, after, kind }),
         2 => Just(BodyForm::None),
         1 => (0u8..3).prop_map(BodyForm::EmptyChunks),
     ]
@@ -377,7 +404,7 @@ pub fn rawreq(n: u8) -> impl Strategy<Value = RawReq> {
         2 => (0u8..10).prop_map(Route::NearMiss),
         1 => (0u8..4).prop_map(Route::TrailingSlash),
     ];
-    (route, 0u8..100, 0..n, idform_header(), any_idref(n), idform_path(), ctform(), bodyform(), any::<bool>()).prop_map(|(route, m, client, cid, idref, pid, ct, body, announce_len)| {
+    (route, 0u8..100, 0..n, idform_header(), any_idref(n), idform_path(), ctform(), bodyform(), (any::<bool>(), prop::bool::weighted(0.15))).prop_map(|(route, m, client, cid, idref, pid, ct, body, (announce_len, http10))| {
         // the right method most of the time
         let method = if m < 72 {
             match route {
@@ -388,7 +415,7 @@ pub fn rawreq(n: u8) -> impl Strategy<Value = RawReq> {
             m % 7
         };
         // an own-latest parent most of the time for writes by construction of any_idref
-        RawReq { route, method, client, cid, idref, pid, ct, body, announce_len }
+        RawReq { route, method, client, cid, idref, pid, ct, body, announce_len, http10 }
     })
 }
 
@@ -738,6 +765,109 @@ pub fn check_limit_binary(lc: &LimitCase, st: &mut Stats) -> CheckResult {
     Ok(())
 }
 
+/// A request head that *declares* a body far above the limit (or an ill-formed length) and then
+/// sends no body byte at all: whatever the server makes of it, it must not die, must not answer
+/// 5xx, and must keep serving the state it had.
+#[derive(Clone, Debug, Serialize, Deserialize, PartialEq, Eq, Hash)]
+pub struct DeclCase {
+    pub snapshot: bool,
+    /// the text of the Content-Length header
+    pub declared: String,
+}
+
+pub fn check_declared_binary(dc: &DeclCase, st: &mut Stats) -> CheckResult {
+    use crate::sock::{exchange, Encoding};
+    use std::io::{Read, Write};
+    let Some(bin) = crate::props::binary::server_bin() else { return Err(Fail::Inconclusive("the server executable has not been built".into())) };
+    let dir = TempDir::new("c15d");
+    let mut proc = None;
+    for _ in 0..4 {
+        let l = std::net::TcpListener::bind("127.0.0.1:0").map_err(|e| Fail::Inconclusive(format!("no loopback port: {e}")))?;
+        let port = l.local_addr().unwrap().port();
+        drop(l);
+        let launch = crate::props::binary::Launch { args: vec!["--data-dir".into(), dir.path().to_string_lossy().into_owned(), "--listen".into(), format!("127.0.0.1:{port}")], env: vec![], connect: vec![format!("127.0.0.1:{port}").parse().unwrap()], cwd: None };
+        if let Ok(p) = crate::props::binary::spawn(&bin, &launch) {
+            proc = Some(p);
+            break;
+        }
+    }
+    let Some(mut proc) = proc else { return Err(Fail::Inconclusive("cannot start the server executable".into())) };
+    let addr = proc.addrs[0];
+    let to = std::time::Duration::from_secs(30);
+    let c = case::client_uuid(15, 3);
+    let first = match exchange(addr, &crate::driver::req_add_version(c, Uuid::nil(), vec![Bytes::from_static(b"x")]), Encoding::ContentLength, &[], to) {
+        Ok(r) => match crate::driver::decode(crate::driver::Endpoint::AddVersion, &r) {
+            Outcome::Accepted { id, .. } => id,
+            o => return v(format!("set-up through the real executable: {}", o.short())),
+        },
+        Err(e) => return Err(Fail::Inconclusive(format!("socket: {e:?}"))),
+    };
+    let (path, ct) = if dc.snapshot { (format!("/v1/client/add-snapshot/{first}"), "application/vnd.taskchampion.snapshot") } else { (format!("/v1/client/add-version/{first}"), "application/vnd.taskchampion.history-segment") };
+    let what = format!("POST {path} declaring Content-Length: {} and sending no body byte, to the real executable", dc.declared);
+    st.check();
+    let mut s = std::net::TcpStream::connect(addr).map_err(|e| Fail::Inconclusive(format!("connect: {e}")))?;
+    let _ = s.set_read_timeout(Some(std::time::Duration::from_millis(1500)));
+    let head = format!("POST {path} HTTP/1.1\r\nHost: localhost\r\nX-Client-Id: {c}\r\nContent-Type: {ct}\r\nContent-Length: {}\r\n\r\n", dc.declared);
+    let _ = s.write_all(head.as_bytes());
+    let _ = s.flush();
+    // wait for an (early) answer; a server that waits for the body is within its rights
+    let mut buf = vec![];
+    let mut tmp = [0u8; 4096];
+    loop {
+        match s.read(&mut tmp) {
+            Ok(0) => break,
+            Ok(n) => {
+                buf.extend_from_slice(&tmp[..n]);
+                if crate::sock::parse_response(&buf, false).is_some() {
+                    break;
+                }
+            }
+            Err(_) => break,
+        }
+    }
+    // then give up the upload: end of the sending direction, and read what may still come
+    let _ = s.shutdown(std::net::Shutdown::Write);
+    if crate::sock::parse_response(&buf, false).is_none() {
+        loop {
+            match s.read(&mut tmp) {
+                Ok(0) => break,
+                Ok(n) => buf.extend_from_slice(&tmp[..n]),
+                Err(_) => break,
+            }
+        }
+    }
+    drop(s);
+    let status = crate::sock::parse_response(&buf, false).map(|r| r.status);
+    match status {
+        Some(sc) if sc >= 500 => return v(format!("{what}: answered {sc}")),
+        Some(sc) if !(400..500).contains(&sc) => return v(format!("{what}: answered {sc}; a request without a body cannot be served, and one declaring more than the limit must be refused")),
+        Some(sc) => st.label(&format!("declared-length:answered-{sc}")),
+        None => st.label("declared-length:connection-ended-without-a-status-line"),
+    }
+    // the server is still there, and serves the state it had
+    std::thread::sleep(std::time::Duration::from_millis(50));
+    if !proc.alive() {
+        return v(format!("{what}: the server process died"));
+    }
+    match exchange(addr, &crate::driver::req_get_child(c, first), Encoding::ContentLength, &[], to) {
+        Ok(r) if r.status == 404 => {}
+        Ok(r) => return v(format!("{what}: afterwards GetChildVersion of the latest version answers {} (expected 404: nothing was added)", r.status)),
+        Err(e) => return v(format!("{what}: afterwards the server no longer answers: {e:?}")),
+    }
+    match exchange(addr, &crate::driver::req_get_snapshot(c), Encoding::ContentLength, &[], to) {
+        Ok(r) if r.status == 404 => {}
+        Ok(r) => return v(format!("{what}: afterwards GetSnapshot answers {} (expected 404: no snapshot was stored)", r.status)),
+        Err(e) => return v(format!("{what}: afterwards the server no longer answers: {e:?}")),
+    }
+    match exchange(addr, &crate::driver::req_add_version(c, first, vec![Bytes::from_static(b"y")]), Encoding::ContentLength, &[], to) {
+        Ok(r) if r.status == 200 => {}
+        Ok(r) => return v(format!("{what}: afterwards a valid AddVersion answers {}", r.status)),
+        Err(e) => return v(format!("{what}: afterwards the server no longer answers: {e:?}")),
+    }
+    st.nontrivial(&("declared-length", dc.snapshot, dc.declared.clone()));
+    Ok(())
+}
+
 /// Refusals must not wear the server out: after a run of refused oversized uploads (multi-chunk,
 /// both endpoints), a valid upload of exactly the limit and a small one are still served.
 #[derive(Clone, Debug, Serialize, Deserialize, PartialEq, Eq, Hash)]
@@ -868,6 +998,33 @@ fn check_twin(tc: &TCase, st: &mut Stats) -> CheckResult {
     let mut quiet = Stats::default();
     quiet.frozen = true;
     for (idx, op) in case.ops.iter().enumerate() {
+        // now and then the HTTP side alone first receives a request that the handlers refuse
+        // without consulting the library (empty body, wrong media type): being no protocol
+        // transaction at all, it must not show in any later outcome
+        if let (true, Some(ci)) = ((case.salt as usize + idx) % 5 == 0, op.client()) {
+            let c = hh.clients[ci as usize % hh.clients.len()];
+            let req = match (case.salt as usize / 5 + idx) % 3 {
+                0 => crate::driver::req_add_version(c, Uuid::nil(), vec![]),
+                1 => {
+                    let mut r = crate::driver::req_add_version(c, Uuid::nil(), vec![Bytes::from_static(b"x")]);
+                    r.headers.retain(|(n, _)| !n.eq_ignore_ascii_case("content-type"));
+                    r.headers.push(("Content-Type".into(), b"text/plain".to_vec()));
+                    r
+                }
+                _ => crate::driver::req_add_snapshot(c, crate::case::fresh_uuid(77), vec![]),
+            };
+            let saved = (hh.drv.ct_params.take(), hh.drv.id_style);
+            hh.drv.id_style = 0;
+            let r = hh.drv.http_call(req);
+            hh.drv.ct_params = saved.0;
+            hh.drv.id_style = saved.1;
+            let _ = hh.drv.http_log.replace(vec![]);
+            if !(400..500).contains(&r.status) {
+                // not refused: C15's business; the two sides are no longer comparable
+                return Ok(());
+            }
+            st.label("c14:refused-request-interleaved");
+        }
         let n0 = hl.steps.len();
         hl.step(idx, op, &mut quiet)?;
         // the label of ids must be computed against the state *after* the step on both sides
@@ -1301,7 +1458,7 @@ pub fn run(id: &str, tier: Tier, seed: u64) -> Report {
                 tier,
                 seed,
                 "exploration",
-                "generated histories executed simultaneously through the HTTP handlers and through the library on twin storages; every HTTP response is compared with the image of the library outcome under the table of the statement: status, presence and absence of X-Version-Id / X-Parent-Version-Id / X-Snapshot-Request (urgency=low|high exactly when urgency is not none), Content-Type, body; ids through chain positions. Non-trivial: urgency low/none, conflict or gone after real history, found child after >=3 versions, unknown client, declined snapshot; distinct by (endpoint, outcome class, state class, urgency).",
+                "generated histories executed simultaneously through the HTTP handlers and through the library on twin storages; every HTTP response is compared with the image of the library outcome under the table of the statement: status, presence and absence of X-Version-Id / X-Parent-Version-Id / X-Snapshot-Request (urgency=low|high exactly when urgency is not none), Content-Type, body; ids through chain positions; now and then the HTTP side alone first receives a request its handlers refuse on their own (empty body, wrong media type), which must not show in any later outcome. Non-trivial: urgency low/none, conflict or gone after real history, found child after >=3 versions, unknown client, declined snapshot; distinct by (endpoint, outcome class, state class, urgency).",
             );
             rep.assume("the library twin performs the documented create-on-AddVersion for unknown clients");
             rep.assume("a third of the histories send the right media type with a parameter (; charset=utf-8, ;v=1): parameters do not change the media type, so the outcome must still be the library's (C15 neither requires nor forbids refusing such requests; C14 compares with the library)");
@@ -1324,9 +1481,9 @@ pub fn run(id: &str, tier: Tier, seed: u64) -> Report {
             let mode = if id == "C15" { Mode::C15 } else { Mode::C20 };
             let idn: &'static str = if id == "C15" { "C15" } else { "C20" };
             let rule = if id == "C15" {
-                "grammar-generated requests (route incl. near-miss/unknown x 7 methods x client-id form x path-id form x content-type form x body form incl. none/empty/multi-chunk) against in-process servers (memory and SQLite) already holding a generated state; oracle: never a 5xx or a crash; malformed by the statement's list => 4xx and the full state dump unchanged; well-formed => served with the status the model predicts; forms the id parser accepts but that are not canonical => either of the two. Plus bodies of limit-1, limit, limit+1 bytes (single and multi-chunk, crossing the limit at and after a chunk edge) on both write endpoints. Non-trivial: reaches a handler and is refused for exactly one reason, or body within 1 byte of the limit; distinct by grammar tuple."
+                "grammar-generated requests (route incl. near-miss/unknown x 7 methods x client-id form x path-id form x content-type form x body form incl. none/empty/multi-chunk and transfers that break after k good chunks (payload error of five kinds reported by the HTTP layer) x HTTP/1.1 or 1.0) against in-process servers (memory and SQLite) already holding a generated state; oracle: never a 5xx or a crash; malformed by the statement's list => 4xx and the full state dump unchanged; well-formed => served with the status the model predicts; forms the id parser accepts but that are not canonical => either of the two. Plus bodies of limit-1, limit, limit+1 bytes (single and multi-chunk, crossing the limit at and after a chunk edge) on both write endpoints; a run of refused oversized uploads followed by valid ones; against the real executable: limit-sized bodies, and request heads declaring a Content-Length of limit+1 .. 2^64 and ill-formed lengths without sending a body byte (process must survive, no 2xx/5xx, state still served). Non-trivial: reaches a handler and is refused for exactly one reason, or body within 1 byte of the limit; distinct by grammar tuple."
             } else {
-                "every response of the HTTP-level explorations (history requests with all outcomes, the C15 request grammar incl. unknown routes/methods, refusals, limit-sized and oversized bodies, allow-list refusals) must carry Cache-Control with no-store. Non-trivial: any response other than GET / 200; distinct by (method, route, status)."
+                "every response of the HTTP-level explorations (history requests with all outcomes, the C15 request grammar incl. unknown routes/methods, refusals, limit-sized and oversized bodies, broken transfers, HTTP/1.0 requests, allow-list refusals) must carry Cache-Control with no-store. Non-trivial: any response other than GET / 200; distinct by (method, route, status)."
             };
             let mut rep = Report::new(idn, tier, seed, "exploration", rule);
             rep.assume("only syntactically valid HTTP messages are generated; requests are delivered in process to the service built by WebServer::config (which includes the default-headers middleware)");
@@ -1392,6 +1549,22 @@ pub fn run(id: &str, tier: Tier, seed: u64) -> Report {
                 let mut r = engine::enumerate_n("C15", "limit-binary", 6, cases, check_limit_binary);
                 r.exhaustive = false;
                 rep.absorb("size-limit-over-tcp-real-executable", r);
+                if !rep.failed() {
+                    // declared lengths nobody can mean: above the limit by one, beyond 32 and 63 bits,
+                    // beyond 64 bits, and ill-formed
+                    let mut cases = vec![];
+                    for (i, d) in ["104857601", "4294967296", "1099511627776", "1125899906842624", "9223372036854775807", "9223372036854775808", "18446744073709551615", "18446744073709551616", "99999999999999999999999999", "-1", "+5", "1e3"].iter().enumerate() {
+                        for snapshot in [false, true] {
+                            if tier == Tier::Quick && (i % 2 == 0) == snapshot && i != 3 {
+                                continue;
+                            }
+                            cases.push(DeclCase { snapshot, declared: d.to_string() });
+                        }
+                    }
+                    let mut r = engine::enumerate_n("C15", "declared-binary", 8, cases, check_declared_binary);
+                    r.exhaustive = false;
+                    rep.absorb("declared-length-without-body-real-executable", r);
+                }
             }
             rep
         }
@@ -1643,6 +1816,7 @@ pub fn replay(id: &str, kind: &str, case_json: &Value, st: &mut Stats) -> CheckR
         ("C15", "raw") => check_raw(&serde_json::from_value(case_json.clone()).map_err(bad)?, Mode::C15, st),
         ("C20", "raw") => check_raw(&serde_json::from_value(case_json.clone()).map_err(bad)?, Mode::C20, st),
         ("C15", "repeat") => check_repeated_refusals(&serde_json::from_value(case_json.clone()).map_err(bad)?, st),
+        ("C15", "declared-binary") => check_declared_binary(&serde_json::from_value(case_json.clone()).map_err(bad)?, st),
         ("C15", "limit-binary") => check_limit_binary(&serde_json::from_value(case_json.clone()).map_err(bad)?, st),
         ("C15", "limit") => check_limit(&serde_json::from_value(case_json.clone()).map_err(bad)?, false, st),
         ("C20", "limit") => check_limit(&serde_json::from_value(case_json.clone()).map_err(bad)?, true, st),
